@@ -489,11 +489,62 @@ func checkC10(c *core.Ctx, r *core.Report) {
 			inPlace, at = true, ci
 		}
 	}
+	// the live path is w.filePath; a file opened for writing at exactly that path is the live log
+	filePathF := c.Field(pkgWal, "Wal.filePath")
+	isLivePath := func(v ssa.Value) bool {
+		if ld, ok := core.Unwrap(v).(*ssa.UnOp); ok && ld.Op == token.MUL {
+			if fa, ok := ld.X.(*ssa.FieldAddr); ok && core.FieldOfAddr(fa) == filePathF {
+				return true
+			}
+		}
+		return false
+	}
+	var renames []ssa.Instruction
+	for _, ci := range core.CallsIn(walWrite) {
+		f := core.CalleeFunc(ci)
+		if f == nil || f.Pkg() == nil || f.Pkg().Path() != "os" {
+			continue
+		}
+		args := ci.Common().Args
+		switch f.Name() {
+		case "OpenFile", "Create", "WriteFile":
+			if len(args) > 0 && isLivePath(args[0]) && !inPlace {
+				inPlace, at = true, ci
+			}
+		case "Rename":
+			if len(args) == 2 && isLivePath(args[1]) && !isLivePath(args[0]) {
+				renames = append(renames, ci)
+			}
+		}
+	}
 	if inPlace {
 		r.Violation("ATOMIC", "wal.Wal.Write:rewrite-in-place", c.Pos(at.Pos()),
 			"Wal.Write truncates the live meta-entry WAL and then writes the new content: a crash between the two system calls leaves a log with no entries, so the meta entries of the open metrics segments are lost")
 	} else {
-		r.OK("ATOMIC", "wal.Wal.Write:rewrite-in-place", c.Pos(walWrite.Pos()), "the rewritten WAL is not truncated in place")
+		r.OK("ATOMIC", "wal.Wal.Write:rewrite-in-place", c.Pos(walWrite.Pos()), "the rewritten WAL is neither truncated nor re-opened for writing at its live path")
+	}
+	{
+		// the new content reaches the live path only by a rename, on every successful return
+		var bad *ssa.Return
+		for _, ret := range core.Returns(walWrite) {
+			if core.ReturnSuccess(ret) == core.No {
+				continue
+			}
+			dominated := false
+			for _, rn := range renames {
+				if core.InstrDominates(rn, ret) {
+					dominated = true
+				}
+			}
+			if !dominated && bad == nil {
+				bad = ret
+			}
+		}
+		if bad != nil {
+			r.Violation("ATOMIC", "wal.Wal.Write:published-by-rename", c.Pos(bad.Pos()), "Wal.Write can report success without having renamed the new content over the live meta-entry WAL: the completed write is not what a restart replays")
+		} else {
+			r.OK("ATOMIC", "wal.Wal.Write:published-by-rename", c.Pos(walWrite.Pos()), "every successful return of Wal.Write is dominated by os.Rename(<other path>, w.filePath)")
+		}
 	}
 
 	// ---------------------------------------------------------------- (5) a datapoint WAL file is created under a fresh name
